@@ -507,6 +507,39 @@ int c04_main(void) {
 }
 
 
+def _operators_program():
+    """every comparison and every arithmetic operator of the four types on all pairs of 8 boundary values (incl. equal operands)"""
+    out = [PRELUDE]
+    bvals = {"i": ["0", "1", "(-1)", "7", "2147483647", "(-2147483647 - 1)", "(-30)", "65536"],
+             "u": ["0u", "1u", "4294967295u", "7u", "2147483647u", "2147483648u", "4294967266u", "65536u"],
+             "l": ["0l", "1l", "(-1l)", "7l", "9223372036854775807l", "(-9223372036854775807l - 1l)", "(-30l)", "4294967296l"],
+             "m": ["0ul", "1ul", "18446744073709551615ul", "7ul", "9223372036854775807ul", "9223372036854775808ul", "18446744073709551586ul", "4294967296ul"]}
+    for t, (name, bits, signed, suf) in TYPES.items():
+        u = cname(UNS[t])
+        out.append(f"{name} tab_{t}[8] = {{ {', '.join(bvals[t])} }};")
+        out.append(f"int cmp_{t}({name} a, {name} b) {{ int r = 0; if (a < b) {{ r = r | 1; }} if (a <= b) {{ r = r | 2; }} if (a > b) {{ r = r | 4; }} "
+                   f"if (a >= b) {{ r = r | 8; }} if (a == b) {{ r = r | 16; }} if (a != b) {{ r = r | 32; }} "
+                   f"r = r | ((a < b) << 6) | ((a <= b) << 7) | ((a > b) << 8) | ((a >= b) << 9); return r; }}")
+        if signed:
+            ar = (f"{name} r = ({name})(({u})a + ({u})b); r = ({name})(({u})r * 31{TYPES[UNS[t]][3]} + (({u})a - ({u})b)); "
+                  f"r = r ^ ({name})(({u})a * ({u})b); r = r ^ (a & b) ^ ((a | b) >> (b & {bits - 1}{suf})); "
+                  f"r = r ^ (a / ((b & 255{suf}) + 1{suf})) ^ ((a % ((b & 255{suf}) + 1{suf})) * 8{suf}); r = r ^ (~a) ^ ({name})(0{TYPES[UNS[t]][3]} - ({u})b);")
+        else:
+            ar = (f"{name} r = a + b; r = r * 31{suf} + (a - b); r = r ^ (a * b); r = r ^ (a & b) ^ ((a | b) >> (b & {bits - 1}{suf})) ^ (a << (b & {bits - 1}{suf})); "
+                  f"r = r ^ (a / (b | 1{suf})) ^ ((a % (b | 1{suf})) << 3); r = r ^ (~a) ^ (0{suf} - b);")
+        out.append(f"{name} ar_{t}({name} a, {name} b) {{ {ar} return r; }}")
+    m = ["int c04_main(void) {", "  unsigned long acc = 0ul; int i; int j;"]
+    for t in TYPES:
+        m.append(f"  for (i = 0; i < 8; i = i + 1) {{ unsigned long row = 0ul; for (j = 0; j < 8; j = j + 1) {{ "
+                 f"row = row * 1031ul + (unsigned long)cmp_{t}(tab_{t}[i], tab_{t}[j]); acc = acc * 31ul + (unsigned long)ar_{t}(tab_{t}[i], tab_{t}[j]); }} put_hex(row); put_hex(acc); }}")
+    m += ["  return (int)(acc & 127ul);", "}"]
+    out.append("\n".join(m))
+    return "\n".join(out) + "\n"
+
+
+CORPUS["operators"] = _operators_program()
+
+
 # ---- building and running ----------------------------------------------------------------------------------
 
 def _quiet():
